@@ -178,9 +178,15 @@ CLAIMED = {
         "Trusted: TLC, H3Grid transcription, frozen tables, driver. Any chart satisfying the axioms is accepted.",
         "DESIGN.md 3.7, 5/C09"),
     "C14": (
-        "TLC trace validation of gridPathCells events: adjacency of consecutive cells in the TLA+ neighbour graph, announced size, frame condition",
-        "For pairs within k<=3(4) of all/sampled cells of r<=2, strata at all resolutions, random and straight walks and "
-        "long paths at r>=5, TLC validates each recorded call: size = gridDistance+1, first = a, last = b, all cells "
+        "TLC: exact rational model of the line drawing (H3Path: interpolation + cubeRound, contiguity for all endpoints within 9) bound to the code by model -> code replay + TLC trace validation of gridPathCells events: adjacency of consecutive cells in the TLA+ neighbour graph, announced size, frame condition",
+        "H3Path.tla transcribes the interpolation in cube coordinates and cubeRound in exact rational arithmetic; MC_Path shows "
+        "that the distance + 1 samples are lattice neighbours for every start within 1 and end within 9 (negative control "
+        "rejected); 3.8x10^3 (3x10^4) real paths on pentagon-free patches equal the model's line sample by sample in local IJ "
+        "coordinates (drift level, exact ties excepted). "
+        "For pairs within k<=3(4) of all/sampled cells of r<=2, strata at all resolutions (pentagon disks, icosahedron edges, sparse "
+        "digit strings, index sub-tree borders), class-stratified paths out of and lines across every pentagon base cell "
+        "(500 (3000) per ordered pair of neighbouring base cells for the two polar pentagons, 200 (600) for the others), random and straight walks and "
+        "long paths at r>=5, lines of thousands of cells at r=13..15, TLC validates each recorded call: size = gridDistance+1, first = a, last = b, all cells "
         "valid and of the same resolution, each a neighbour (set N of the reference graph) of its predecessor, nothing "
         "written beyond the announced size (sentinels), success for a=b and for neighbours.",
         "Trusted: TLC, H3Grid transcription, driver. Shortest-ness rests on size = gridDistance+1 together with C09.",
